@@ -221,7 +221,16 @@ def path_fn_for(tmpl, aspects, assume=None, ref_prog=None):
         def on_case(outcome, s, it):
             obs['cases'] += 1
             if outcome[0] == 'unspecified':
-                obs['silent'].append(outcome[1]); obs['ref'].append('unspecified'); return
+                obs['silent'].append(outcome[1]); obs['ref'].append('unspecified')
+                # a crash is a violation whatever the reference says about the rest
+                if obs['real'] in ('panic', 'hang') and s is not None:
+                    r0, mdl0 = sat_model(s)
+                    a0 = 'panic' if obs['real'] == 'panic' else 'hang'
+                    if r0 == z3.sat and a0 in aspects:
+                        obs['violations'].append({'aspect': a0, 'what': 'internal panic: ' + detail, 'wit': wit_of(mdl0), 'ref': 'unspecified'})
+                elif obs['real'] in ('panic', 'hang') and ('panic' in aspects):
+                    obs['violations'].append({'aspect': 'panic' if obs['real'] == 'panic' else 'hang', 'what': 'internal panic: ' + detail, 'wit': obs['wit'], 'ref': 'unspecified'})
+                return
             r, mdl = sat_model(s)
             if r != z3.sat:
                 if r != z3.unsat: obs['unknown'].append('solver unknown in reference case')
